@@ -183,16 +183,33 @@ def _disturbers(spec):
                 ms.allocate_snapshots(int(w[1]), int(w[2]), int(w[3]), trajectory=w[4], **kw)
             except Exception:
                 pass
-    for sp, steps in ((_bigger(spec), 3), (spec, 1 + (sum(map(ord, spec)) % 5))):
-        if sp is None:
-            continue
+    big = _bigger(spec)
+    if big is not None:
+        # the sibling is driven like a real run and abandoned in the MIDDLE OF ITS ADJOINT SWEEP (three actions
+        # after EndForward; an online one is finalised after a few forward actions)
         try:
-            d = parse_spec(sp)()
-            for _ in range(steps):
-                next(d)
+            d = parse_spec(big)()
+            after = None
+            for cnt in range(400):
+                a = next(d)
+                if d.max_n is None and cnt >= 2:
+                    d.finalize(d.n)
+                if after is None and isinstance(a, cs.EndForward):
+                    after = 0
+                elif after is not None:
+                    after += 1
+                    if after >= 3:
+                        break
             out.append(d)
         except Exception:
             pass
+    try:
+        d = parse_spec(spec)()
+        for _ in range(1 + (sum(map(ord, spec)) % 5)):
+            next(d)
+        out.append(d)
+    except Exception:
+        pass
     return out
 
 
@@ -211,13 +228,26 @@ def canon_trace(spec, nfin, k, max_actions=2000000):
         seen = 0
         used_ef = False
         count = 0
+        # every third configuration is driven through `for` loops (one per phase) instead of bare next() calls
+        loop_mode = (sum(map(ord, spec)) + nfin) % 3 == 0 and os.environ.get("VERIF_NO_COMPANY") != "1"
+        phase_it = None
         while True:
             count += 1
             if count > max_actions:
                 lines.append("B runaway")
                 break
             try:
-                a = next(o)
+                if loop_mode:
+                    # the documented client: `for cp_action in cp_schedule: ...; break` — one loop for the forward
+                    # calculation, one per adjoint calculation; leaving a loop must not disturb the schedule
+                    if phase_it is None:
+                        phase_it = iter(o)
+                    a = next(phase_it)
+                    if isinstance(a, (cs.EndForward, cs.EndReverse)):
+                        del phase_it
+                        phase_it = None
+                else:
+                    a = next(o)
             except StopIteration:
                 lines.append("S " + flags(o))
                 for _ in range(2):
